@@ -364,7 +364,7 @@ fn joint_tables(levels: usize, d: usize, thorough: bool) -> Vec<Vec<f64>> {
             out.push((0..4).map(|k| ((idx >> (2 * k)) & 3) as f64).collect());
         }
     } else {
-        let reps = if thorough { 60 } else { 12 };
+        let reps = if thorough { 150 } else { 12 };
         for r in 0..reps {
             let mut g = crate::refs::Lcg::new(777 + r as u64 + (levels * 10 + d) as u64);
             let zero_rate = [0u64, 3, 5][r % 3];
@@ -383,7 +383,7 @@ fn joint_tables(levels: usize, d: usize, thorough: bool) -> Vec<Vec<f64>> {
 }
 
 fn kernel_checks(ctx: &Ctx) {
-    let plans: Vec<(usize, usize)> = if ctx.tier.thorough() { vec![(2, 2), (2, 3), (3, 2), (2, 4), (3, 3)] } else { vec![(2, 2), (2, 3), (3, 2)] };
+    let plans: Vec<(usize, usize)> = if ctx.tier.thorough() { vec![(2, 2), (2, 3), (3, 2), (2, 4), (3, 3), (4, 2), (2, 5), (4, 3), (2, 6)] } else { vec![(2, 2), (2, 3), (3, 2)] };
     ctx.extra("finite_kernels", json!(plans.iter().map(|(l, d)| format!("{{0..{}}}^{d}", l - 1)).collect::<Vec<_>>()));
     for (levels, d) in plans {
         let tables = joint_tables(levels, d, ctx.tier.thorough());
